@@ -145,6 +145,7 @@ typedef enum coap_request_t {
 #define COAP_OPTION_NORESPONSE    258 /* _U-_E_U, uint,      0-1 B, RFC7967 */
 #define COAP_OPTION_RTAG          292 /* ___RE_U, opaque,    0-8 B, RFC9175 */
 
+#include <limits.h>
 #if (UINT_MAX > 65535)
 #define COAP_MAX_OPT            65535 /**< the highest option number we know */
 #else /* UINT_MAX <= 65535 */
